@@ -384,6 +384,13 @@ impl<'a, 'src: 'a> Compiler<'a, 'src> {
     self
   }
 
+  /// Continue the inline cache ids from the provided emitter. Used when
+  /// a module is compiled in several pieces such as the entries of the repl
+  pub fn with_cache_id_emitter(mut self, cache_id_emitter: CacheIdEmitter) -> Self {
+    self.cache_id_emitter = Rc::new(RefCell::new(cache_id_emitter));
+    self
+  }
+
   /// End this compilers compilation emitting a final return
   /// and shrinking the function to the correct size
   fn end_compiler(mut self, line: u32) -> (Fun, Vec<Diagnostic<VmFileId>>, Vec<CaptureIndex>) {
